@@ -7,6 +7,7 @@ import (
 	"fmt"
 	"hash/fnv"
 	"net"
+	"reflect"
 	"runtime"
 	"sort"
 	"strconv"
@@ -15,6 +16,7 @@ import (
 	"sync/atomic"
 	"testing"
 	"time"
+	"unsafe"
 
 	"github.com/anishathalye/porcupine"
 	"verifharness/lib/mon"
@@ -46,7 +48,21 @@ type verifC15Conn struct {
 	inWrite int32
 	maxConc int32
 	closed  int32
+	// fault injection: the failAt-th transport write (1-based) accepts failN bytes and fails with failErr; later writes work
+	failAt  int32
+	failN   int
+	failErr error
+	calls   int32
+	failOff int  // wire length right after the failed write (-1: no fault happened)
+	failCut bool // the failed write was cut short (fewer bytes accepted than offered)
 }
+
+// a transport timeout, as a net.Conn reports an expired write deadline
+type verifTimeoutErr struct{}
+
+func (verifTimeoutErr) Error() string   { return "verif: i/o timeout" }
+func (verifTimeoutErr) Timeout() bool   { return true }
+func (verifTimeoutErr) Temporary() bool { return true }
 
 func (c *verifC15Conn) Write(p []byte) (int, error) {
 	if atomic.LoadInt32(&c.closed) != 0 {
@@ -65,6 +81,19 @@ func (c *verifC15Conn) Write(p []byte) (int, error) {
 	if atomic.LoadInt32(&c.closed) != 0 {
 		atomic.AddInt32(&c.inWrite, -1)
 		return 0, fmt.Errorf("verif: use of closed connection")
+	}
+	if k := atomic.AddInt32(&c.calls, 1); c.failAt > 0 && k == c.failAt && len(p) > 0 {
+		acc := c.failN
+		if acc >= len(p) {
+			acc = len(p) - 1
+		}
+		c.mu.Lock()
+		c.wire = append(c.wire, p[:acc]...)
+		c.writes = append(c.writes, len(c.wire))
+		c.failOff, c.failCut = len(c.wire), true
+		c.mu.Unlock()
+		atomic.AddInt32(&c.inWrite, -1)
+		return acc, c.failErr
 	}
 	c.mu.Lock()
 	c.wire = append(c.wire, p...)
@@ -120,13 +149,13 @@ func verifParsePayload(b []byte) (actor byte, seq int, ok bool) {
 // ---- one run ---------------------------------------------------------------------------
 
 type verifOp struct {
-	actor    byte
-	seq      int
-	kind     string // data, ping, pong, close
-	call     int64
-	ret      int64
-	result   string // ok, closesent, other:<msg>
-	frames   int
+	actor  byte
+	seq    int
+	kind   string // data, ping, pong, close
+	call   int64
+	ret    int64
+	result string // ok, closesent, other:<msg>
+	frames int
 }
 
 type verifC15Run struct {
@@ -145,6 +174,7 @@ type verifC15Run struct {
 	lockErr []string
 	yield   func(point string)
 	dataGid int64
+	plan    verifC15Plan
 }
 
 func (x *verifC15Run) hook(point string, c *Conn) {
@@ -207,17 +237,24 @@ func (x *verifC15Run) record(actor byte, seq int, kind string, frames int, f fun
 }
 
 type verifC15Plan struct {
-	server    bool
-	wbuf      int
-	nData     int
-	dataSizes []int
-	dataAPI   []int // 0 WriteMessage, 1 NextWriter+big Write+Close (multi-frame), 2 NextWriter + small writes
-	nCtl      int   // control senders
-	ctlFrames int
-	nPings    int // pings fed to the reader (answered by the default handler from the reader goroutine)
-	closeMode int // 0 none, 1 Close frame via WriteControl, 2 Close() of the connection
-	closeAt   int // the closer fires when the global op counter reaches this value
+	server         bool
+	wbuf           int
+	nData          int
+	dataSizes      []int
+	dataAPI        []int // 0 WriteMessage, 1 NextWriter+big Write+Close (multi-frame), 2 NextWriter + small writes
+	nCtl           int   // control senders
+	ctlFrames      int
+	nPings         int  // pings fed to the reader (answered by the default handler from the reader goroutine)
+	closeMode      int  // 0 none, 1 Close frame via WriteControl, 2 Close() of the connection
+	closeAt        int  // the closer fires when the global op counter reaches this value
 	shortDeadlines bool // some control writes carry a deadline short enough to expire while they wait for the lock
+	// closeMode 3..5: the Close frame goes through the data writer's APIs (WriteMessage / NextWriter / prepared message), sent by the
+	// data writer itself before data message closeAtData; the remaining data writes follow it (and must fail)
+	closeAtData int
+	emptyCtl    bool // some pings/pongs carry no payload (the usual keep-alive)
+	faultAt     int  // > 0: the transport fails that write call
+	faultN      int  // bytes the failing write accepts
+	faultKind   int  // 0 timeout (net.Error), 1 other error
 }
 
 func verifC15GenPlan(r *vrand.Rand) verifC15Plan {
@@ -228,16 +265,42 @@ func verifC15GenPlan(r *vrand.Rand) verifC15Plan {
 	}
 	p.closeAt = r.Range(0, p.nData+p.nCtl*p.ctlFrames)
 	p.shortDeadlines = r.Chance(1, 3)
+	p.emptyCtl = r.Chance(1, 2)
+	if p.closeMode == 1 && r.Chance(1, 2) {
+		p.closeMode = r.Pick(3, 4, 5)
+		p.closeAtData = r.Range(0, p.nData)
+	}
+	if r.Chance(1, 10) {
+		// a client whose frames carry a 64-bit length: the frame header then fills the whole header room of the write buffer
+		p.server, p.wbuf, p.nData, p.emptyCtl = false, 65536+r.Pick(0, 64, 4000), r.Range(1, 3), true
+		p.dataSizes, p.dataAPI = nil, nil
+		for i := 0; i < p.nData; i++ {
+			p.dataSizes = append(p.dataSizes, r.Pick(65536, p.wbuf, p.wbuf+1, 2*p.wbuf+7))
+			p.dataAPI = append(p.dataAPI, r.Intn(2))
+		}
+		if p.closeAtData > p.nData {
+			p.closeAtData = p.nData
+		}
+	}
+	if r.Chance(1, 3) {
+		p.faultAt, p.faultN, p.faultKind = r.Range(1, 3*p.nData+p.nCtl*p.ctlFrames), r.Pick(0, 0, 0, 1, 3, 1000000), r.Pick(0, 0, 1)
+	}
 	return p
 }
 
 func (p verifC15Plan) String() string {
-	return fmt.Sprintf("server=%v wbuf=%d data=%v api=%v ctl=%dx%d pings=%d close=%d@%d", p.server, p.wbuf, p.dataSizes, p.dataAPI, p.nCtl, p.ctlFrames, p.nPings, p.closeMode, p.closeAt)
+	return fmt.Sprintf("server=%v wbuf=%d data=%v api=%v ctl=%dx%d pings=%d close=%d@%d/%d emptyctl=%v fault=%d/%d/%d", p.server, p.wbuf, p.dataSizes, p.dataAPI, p.nCtl, p.ctlFrames, p.nPings, p.closeMode, p.closeAt, p.closeAtData, p.emptyCtl, p.faultAt, p.faultN, p.faultKind)
 }
 
 func verifC15NewRun(m *mon.M, p verifC15Plan) *verifC15Run {
-	tr := &verifC15Conn{rd: vnet.NewBlockingPipe(vnet.SegWhole())}
-	x := &verifC15Run{m: m, tr: tr, held: map[int64]bool{}, waiting: map[int64]bool{}}
+	tr := &verifC15Conn{rd: vnet.NewBlockingPipe(vnet.SegWhole()), failOff: -1}
+	if p.faultAt > 0 {
+		tr.failAt, tr.failN, tr.failErr = int32(p.faultAt), p.faultN, error(verifTimeoutErr{})
+		if p.faultKind == 1 {
+			tr.failErr = fmt.Errorf("verif: connection reset by peer")
+		}
+	}
+	x := &verifC15Run{m: m, tr: tr, held: map[int64]bool{}, waiting: map[int64]bool{}, plan: p}
 	x.conn = newConn(tr, p.server, 1024, p.wbuf)
 	return x
 }
@@ -289,12 +352,42 @@ func (x *verifC15Run) writeCtlDeadline(actor byte, seq int, wait time.Duration) 
 		kind, mt = "pong", PongMessage
 	}
 	payload := verifPayload(actor, seq, 4+(seq*11+int(actor))%120)
+	if x.plan.emptyCtl && (seq+int(actor))%3 == 1 {
+		payload = nil // a keep-alive ping/pong without payload: anonymous on the wire, still a whole frame
+	}
 	return x.record(actor, seq, kind, 1, func() error {
 		return x.conn.WriteControl(mt, payload, time.Now().Add(wait))
 	})
 }
 
 func (x *verifC15Run) writeClose(mode int) {
+	body := FormatCloseMessage(CloseNormalClosure, "bye")
+	switch mode {
+	case 3:
+		x.record('C', 0, "close", 1, func() error { return x.conn.WriteMessage(CloseMessage, body) })
+		return
+	case 4:
+		x.record('C', 0, "close", 1, func() error {
+			w, err := x.conn.NextWriter(CloseMessage)
+			if err != nil {
+				return err
+			}
+			if _, err := w.Write(body); err != nil {
+				return err
+			}
+			return w.Close()
+		})
+		return
+	case 5:
+		x.record('C', 0, "close", 1, func() error {
+			pm, err := NewPreparedMessage(CloseMessage, body)
+			if err != nil {
+				return err
+			}
+			return x.conn.WritePreparedMessage(pm)
+		})
+		return
+	}
 	if mode == 1 {
 		x.record('C', 0, "close", 1, func() error {
 			return x.conn.WriteControl(CloseMessage, FormatCloseMessage(CloseNormalClosure, "bye"), time.Now().Add(time.Hour))
@@ -321,17 +414,37 @@ func (x *verifC15Run) judge(p verifC15Plan, rep map[string]interface{}, mode str
 	if p.server {
 		sender = refws.RoleServer
 	}
-	ps := refws.ParseLog(sender, false, wire)
 	scope := ":" + mode
+	x.tr.mu.Lock()
+	failOff, faulted := x.tr.failOff, x.tr.failOff >= 0
+	x.tr.mu.Unlock()
+	if faulted {
+		// a transport write failed (injected).  Up to there the wire must be whole frames; if the failure cut a frame, that frame
+		// can never be completed, so nothing at all may follow it: whatever follows lands inside the cut frame for the receiver.
+		m.Count("runs_with_transport_write_fault", 1)
+		pre := refws.ParseLog(sender, false, wire[:failOff])
+		if err := pre.Err(); err != nil {
+			m.Violationf("c15:wire-not-whole-frames:"+err.Code+scope, rep, "before the injected transport fault the wire already stops being frames at offset %d: %s %s; plan %s", err.Offset, err.Code, err.Detail, p)
+			return
+		}
+		if ferr := pre.Finish(); ferr != nil && ferr.Code == "truncated-frame" {
+			m.Count("faults_that_cut_a_frame", 1)
+			if len(wire) > failOff {
+				m.Violationf("c15:bytes-after-frame-cut-by-transport-error"+scope, rep, "the transport failed inside a frame at wire offset %d (%s), yet %d more bytes were written afterwards: they land inside the unfinished frame; plan %s", failOff, ferr.Detail, len(wire)-failOff, p)
+				return
+			}
+		}
+	}
+	ps := refws.ParseLog(sender, false, wire)
 	if err := ps.Err(); err != nil {
 		m.Violationf("c15:wire-not-whole-frames:"+err.Code+scope, rep, "the bytes on the wire stop being a sequence of well-formed frames at offset %d (frame %d): %s %s; plan %s", err.Offset, err.Frame, err.Code, err.Detail, p)
 		return
 	}
 	if ferr := ps.Finish(); ferr != nil {
 		switch {
-		case ferr.Code == "unfinished-message" && p.closeMode != 0:
-			m.Count("unfinished_message_at_close", 1) // a fragmented message interrupted by the close: not delivered, allowed
-		case ferr.Code == "truncated-frame" && p.closeMode == 2:
+		case ferr.Code == "unfinished-message" && (p.closeMode != 0 || faulted):
+			m.Count("unfinished_message_at_close", 1) // a fragmented message interrupted by the close (or a failed write): not delivered, allowed
+		case ferr.Code == "truncated-frame" && (p.closeMode == 2 || faulted):
 			m.Count("truncated_frame_at_connection_close", 1)
 		default:
 			m.Violationf("c15:wire-ends-inside-frame:"+ferr.Code+scope, rep, "%s %s; plan %s", ferr.Code, ferr.Detail, p)
@@ -378,6 +491,11 @@ func (x *verifC15Run) judge(p verifC15Plan, rep map[string]interface{}, mode str
 		case 8:
 			sigb.WriteString("C ")
 		case 9, 10:
+			if len(ev.Payload) == 0 && p.emptyCtl {
+				m.Count("empty_control_frames_on_wire", 1)
+				sigb.WriteString("_ ")
+				continue
+			}
 			a, s, ok := verifParsePayload(ev.Payload)
 			if !ok {
 				m.Violationf("c15:control-frame-altered"+scope, rep, "control frame payload %q is not one that was sent; plan %s", ev.Payload, p)
@@ -423,7 +541,7 @@ func (x *verifC15Run) judge(p verifC15Plan, rep map[string]interface{}, mode str
 	closeOnWire := ps.CloseIndex() >= 0
 	var hist []porcupine.Operation
 	for _, o := range ops {
-		if strings.HasPrefix(o.result, "other:") && p.closeMode != 2 {
+		if strings.HasPrefix(o.result, "other:") && p.closeMode != 2 && !faulted {
 			m.Violationf("c15:unexpected-write-error"+scope, rep, "%s op of actor %c seq %d failed with %q; plan %s", o.kind, o.actor, o.seq, o.result, p)
 		}
 		if o.kind == "data" {
@@ -437,8 +555,8 @@ func (x *verifC15Run) judge(p verifC15Plan, rep map[string]interface{}, mode str
 		if o.kind == "close" && o.result == "ok" && !closeOnWire {
 			m.Violationf("c15:api-result-vs-wire"+scope, rep, "close reported ok but no Close frame on the wire; plan %s", p)
 		}
-		if p.closeMode == 2 {
-			continue // after Close() of the connection writes fail with the transport's error; only wire integrity applies
+		if p.closeMode == 2 || faulted {
+			continue // after Close() of the connection / a transport fault writes fail with the transport's error; only wire integrity applies
 		}
 		hist = append(hist, porcupine.Operation{ClientId: int(o.actor), Input: o.kind, Call: o.call, Output: o.result, Return: o.ret})
 	}
@@ -521,7 +639,7 @@ func verifC15Execute(m *mon.M, p verifC15Plan, ctl verifC15Controller, rep map[s
 	var opCount int64
 	var closeOnce sync.Once
 	maybeClose := func() {
-		if !ctl.directed && p.closeMode != 0 && atomic.AddInt64(&opCount, 1) > int64(p.closeAt) {
+		if !ctl.directed && (p.closeMode == 1 || p.closeMode == 2) && atomic.AddInt64(&opCount, 1) > int64(p.closeAt) {
 			closeOnce.Do(func() { m.Go(&writers, "ws.c15.closer", func() { x.writeClose(p.closeMode) }) })
 		}
 	}
@@ -536,7 +654,13 @@ func verifC15Execute(m *mon.M, p verifC15Plan, ctl verifC15Controller, rep map[s
 		atomic.StoreInt64(&x.dataGid, verifGoid())
 		for s := 0; s < p.nData; s++ {
 			maybeClose()
+			if p.closeMode >= 3 && s == p.closeAtData {
+				x.writeClose(p.closeMode)
+			}
 			x.writeData(p, s)
+		}
+		if p.closeMode >= 3 && p.closeAtData >= p.nData {
+			x.writeClose(p.closeMode)
 		}
 		if launchRest != nil {
 			launchRest(x, &writers) // directed: actors scheduled after the last stop
@@ -670,6 +794,12 @@ func TestVerif_C15_Directed(t *testing.T) {
 		if _, ok := stopOf['C']; !ok {
 			p.closeMode = 0
 		}
+		if r.Chance(1, 3) {
+			// the Close frame goes through the data writer's own APIs; the other actors are launched around its transport write too
+			p.closeMode, p.closeAtData = r.Pick(3, 4, 5), r.Range(0, p.nData)
+			delete(stopOf, 'C')
+		}
+		p.emptyCtl = r.Bool()
 		var launched []string
 		stop := 0
 		var stopMu sync.Mutex
@@ -774,5 +904,160 @@ func TestVerif_C15_Directed(t *testing.T) {
 		}
 		rep["launched"] = launched
 		m.Count("stops_used", int64(stop))
+	}
+}
+
+// ---- close window -----------------------------------------------------------------------------
+
+// The close-sent latch has to be up before the write lock is released behind a Close frame: a writer that takes the
+// lock next must already see it.  The window between "lock released" and "latch raised" — if an implementation has
+// one — is a handful of instructions wide, far narrower than anything yields at the hook points can hit.  This mode
+// aims at it: the racing control senders are started once the closer holds the write lock, spin (on their own cores)
+// at their lock-wait hook point until the closer's unlock hook point fires, spin a PRNG number of further rounds, and
+// then go for the lock, so that they arrive around the instant of the release rather than being parked on the lock
+// long before it.  The hook of this mode does no bookkeeping (no goroutine ids, no locks): phases tell closer and
+// racers apart.  Oracle: the usual ones (nothing after the Close frame on the wire, API results linearizable under
+// the close-latch model).
+func TestVerif_C15_CloseWindow(t *testing.T) {
+	m := mon.New("C15", "closewindow")
+	defer m.Finish(t)
+	m.Rule("closewindow: per trial one connection, 0-1 data messages, then a Close frame through {WriteControl, WriteMessage, NextWriter, prepared message}; " +
+		"1-3 control senders, started when the closer holds the write lock, spin at their lock-wait hook point until the closer reaches its unlock hook point, " +
+		"then a PRNG 0..95 further rounds, then take the lock; oracle = wire parse + nothing after Close + porcupine close-latch model; " +
+		"distinct = wire interleaving signature; the evidence has a histogram of the time from the release to a racer's lock acquisition " +
+		"(how closely the window was approached)")
+	n := m.N(3000, 150000)
+	m.Require("evaluations", int64(n))
+	m.Require("racers_released_together_with_the_unlock", int64(n))
+	verifHookMu.Lock()
+	defer verifHookMu.Unlock()
+	if runtime.GOMAXPROCS(0) < 4 {
+		m.Inconclusive("closewindow needs at least 4 processors to run the racers in parallel with the closer")
+		return
+	}
+	for i := 0; i < n; i++ {
+		r := m.Rand("closewindow", i)
+		p := verifC15Plan{server: r.Bool(), wbuf: 64, nData: r.Intn(2), closeMode: r.Pick(1, 3, 4, 5), nCtl: r.Range(1, 3)}
+		for k := 0; k < p.nData; k++ {
+			p.dataSizes = append(p.dataSizes, r.Pick(8, 70))
+			p.dataAPI = append(p.dataAPI, 0)
+		}
+		p.closeAtData = p.nData
+		x := verifC15NewRun(m, p)
+		// phase: -1 data phase (hook idle); 0 closer about to take the lock; 1 closer holds the lock, racers started;
+		// 2 lock released behind the Close frame
+		phase := int64(-1)
+		var arrived, gaveUp, dummy, releasedAt int64
+		extra := make([]int, p.nCtl)
+		for k := range extra {
+			extra[k] = r.Intn(96)
+		}
+		racersGo := make(chan struct{})
+		t0 := time.Now()
+		// the mutex guarding the write-error latch, looked up by name so that a tree without it merely loses the delay injection
+		var latchMu *sync.Mutex
+		var latchHeld int64
+		if f := reflect.ValueOf(x.conn).Elem().FieldByName("writeErrMu"); f.IsValid() && f.Type() == reflect.TypeOf(sync.Mutex{}) {
+			latchMu = (*sync.Mutex)(unsafe.Pointer(f.UnsafeAddr()))
+		}
+		VerifHook = func(point string, c *Conn) {
+			if c != x.conn {
+				return
+			}
+			ph := atomic.LoadInt64(&phase)
+			if ph < 0 {
+				return
+			}
+			atomic.AddInt64(&x.hookEv, 1)
+			switch {
+			case ph == 0 && strings.HasSuffix(point, ".locked"):
+				atomic.StoreInt64(&phase, 1)
+				close(racersGo)
+			case ph == 1 && strings.HasSuffix(point, ".conn"):
+				// the Close frame is about to reach the transport: wait (bounded) until every racer spins at its lock-wait point
+				for spin := 0; spin < 400000 && atomic.LoadInt64(&arrived) < int64(p.nCtl); spin++ {
+					if spin%64 == 63 {
+						runtime.Gosched()
+					}
+				}
+			case ph == 1 && strings.HasSuffix(point, ".unlock"):
+				// delay injection: from here until a racer holds the write lock, the mutex that guards the latch is kept by
+				// the test.  A closer that raises the latch before releasing the lock never notices; one that raises it
+				// afterwards is held up exactly inside its window, and the racer decides before it.
+				if latchMu != nil && i%2 == 0 {
+					latchMu.Lock()
+					atomic.StoreInt64(&latchHeld, 1)
+					m.Count("trials_with_the_latch_mutex_held_across_the_release", 1)
+				}
+				atomic.StoreInt64(&releasedAt, int64(time.Since(t0)))
+				atomic.StoreInt64(&phase, 2)
+			case ph == 1 && point == "control.lockwait":
+				k := atomic.AddInt64(&arrived, 1) - 1
+				for spin := 0; spin < 50000000 && atomic.LoadInt64(&phase) == 1; spin++ {
+				}
+				if atomic.LoadInt64(&phase) != 2 {
+					atomic.AddInt64(&gaveUp, 1)
+				}
+				for d := 0; d < extra[int(k)%len(extra)]; d++ {
+					atomic.AddInt64(&dummy, 1)
+				}
+			case ph == 2 && point == "control.locked":
+				if atomic.CompareAndSwapInt64(&latchHeld, 1, 0) {
+					latchMu.Unlock()
+				}
+				gap := int64(time.Since(t0)) - atomic.LoadInt64(&releasedAt)
+				switch {
+				case gap < 5000:
+					m.Count("racers_locked_within_5us_of_release", 1)
+				case gap < 10000:
+					m.Count("racers_locked_within_10us_of_release", 1)
+				case gap < 20000:
+					m.Count("racers_locked_within_20us_of_release", 1)
+				case gap < 50000:
+					m.Count("racers_locked_within_50us_of_release", 1)
+				default:
+					m.Count("racers_locked_later_than_50us", 1)
+				}
+			}
+		}
+		var wg sync.WaitGroup
+		m.Go(&wg, "ws.c15.window.closer", func() {
+			for s := 0; s < p.nData; s++ {
+				x.writeData(p, s)
+			}
+			atomic.StoreInt64(&phase, 0)
+			x.writeClose(p.closeMode)
+		})
+		for a := 0; a < p.nCtl; a++ {
+			actor := byte('P' + a)
+			m.Go(&wg, "ws.c15.window.racer", func() {
+				<-racersGo
+				x.writeCtl(actor, 0)
+				x.writeCtl(actor, 1) // a second write, certainly after the close
+			})
+		}
+		done := make(chan struct{})
+		go func() { wg.Wait(); close(done) }()
+		m.Case()
+		rep := map[string]interface{}{"case": i, "plan": p.String(), "extra_spins": extra}
+		select {
+		case <-done:
+		case <-time.After(20 * time.Second):
+			m.Inconclusive("watchdog: a C15 closewindow trial did not finish within 20s; plan " + p.String())
+			VerifHook = nil
+			if atomic.CompareAndSwapInt64(&latchHeld, 1, 0) {
+				latchMu.Unlock()
+			}
+			x.judge(p, rep, "closewindow:hung")
+			return
+		}
+		VerifHook = nil
+		if atomic.CompareAndSwapInt64(&latchHeld, 1, 0) {
+			latchMu.Unlock()
+		}
+		m.Count("racers_released_together_with_the_unlock", atomic.LoadInt64(&arrived)-atomic.LoadInt64(&gaveUp))
+		m.Count("racers_that_gave_up_spinning", atomic.LoadInt64(&gaveUp))
+		x.tr.rd.Close()
+		x.judge(p, rep, "closewindow")
 	}
 }
